@@ -4,6 +4,7 @@ From Coq Require Import List ZArith NArith Bool.
 Import ListNotations.
 From Verif Require Import C15.Tree C15.Opt C15.Allowed C15.Corr C15.Sound C15.Refuted Gen.Tables.
 From Verif Require C01.Lisp C01.Gen C15.Sem C15.SemL C01L.LLisp C01L.LPy C01L.LGen C01L.LTop.
+From Verif Require C15.SemX C01X.XLisp C01X.XPy C01X.XGen C01X.XTop.
 Local Open Scope N_scope.
 
 (** Obligations on the tables regenerated from optimizer.py on every run: each operator
@@ -59,6 +60,28 @@ Example C15_dead_code_rule_fires :
   let '(d, _, _, _) := LGen.lgen (fun _ => None) [] 0 LTop.count_loop in SemL.lopt d <> d.
 Proof. exact SemL.lopt_nonvacuous. Qed.
 
+(** the same on the subset with raise and try/except/finally (dead code after `raise`, in try
+    bodies, handlers and finally clauses; a `finally` clause emptied by the pass), for every
+    fuel and every outcome, including an exception that leaves the program; composed with the
+    simulation theorem of C01X *)
+Theorem C15_stmt_rewrites_preserve_exceptions : forall m F l r,
+  XPy.xexec m F l = Some r -> XPy.xexec m F (SemX.xopt l) = Some r.
+Proof. exact SemX.xopt_stmts_preserves. Qed.
+Theorem C15_optimized_compile_correct_exceptions_partial : forall fuel e o tr,
+  XLisp.xeval fuel (fun _ => None) e = Some (o, tr) -> XGen.hazard_free e = true ->
+  match o with
+  | XLisp.OVal v => exists m, forall m', (m <= m')%nat -> SemX.xrun_opt m' e = Some (XGen.XRVal v tr)
+  | XLisp.OExc c _ => exists m, forall m', (m <= m')%nat -> SemX.xrun_opt m' e = Some (XGen.XRExc c tr)
+  | XLisp.ORec _ => True
+  end.
+Proof. exact SemX.optimized_exceptions_compile_correct. Qed.
+Example C15_exception_rules_fire :
+  (let '(d, _, _, _) := XGen.xgen (fun _ => None) [] 0 XTop.caught in SemX.xopt d <> d) /\
+  (let '(d, _, _, _) := XGen.xgen (fun _ => None) [] 0
+        (XLisp.XTry (XTop.tr1 1) None (XLisp.XConst Verif.C01.Lisp.VNil) true (XLisp.XConst (Verif.C01.Lisp.VInt 5))) in
+   SemX.xopt d <> d).
+Proof. exact SemX.xopt_nonvacuous. Qed.
+
 (** REFUTED clauses: the model of the pass (tied to the code by the correspondence run)
     performs rewrites that are not allowed. *)
 Theorem C15_is_to_eq_not_allowed : ~ allowed Refuted.w_is (Opt.opt Refuted.w_is).
@@ -98,3 +121,6 @@ Print Assumptions C15_dead_global_not_allowed.
 Print Assumptions C15_accepted_sample.
 Print Assumptions C15_accept_sound.
 Print Assumptions C15_try_without_finally_rejected.
+Print Assumptions C15_stmt_rewrites_preserve_exceptions.
+Print Assumptions C15_optimized_compile_correct_exceptions_partial.
+Print Assumptions C15_exception_rules_fire.
